@@ -360,6 +360,20 @@ def run(ck: Check):
         if m["stream"] == "dex-shipped":
             m["real"], m["model"] = first_diff(m["real"], m["model"])
     ck.cover(dist={"shipped_files": len(names), "shipped_skipped_large": big})
+    # sections missing from the map (the WF hypotheses of parse_encode; `wf_needed`): real vs model
+    from harness.dexasm import DexBuilder, Field, Method, Code
+    dreqs, dreal, dnames = [], [], []
+    for t in (0x0001, 0x0002, 0x0003, 0x0004, 0x0005, 0x0006, 0x1001, 0x2000, 0x2001, 0x2002):
+        bld = DexBuilder()
+        bld.add_class("LFoo;", interfaces=("Ljava/lang/Runnable;",), source_file="Foo.java",
+                      static_fields=[Field("X", "I", 0x9)],
+                      virtual_methods=[Method("f", "I", ("I", "J"), 0x1, Code(5, 4, 0, [("const/4", 0, 1), ("return", 0)]))])
+        data = bld.build(map_order=lambda es, t=t: [e for e in es if e[0] != t])
+        dreqs.append("dex " + hexs(data))
+        dreal.append(real_line(data))
+        dnames.append("dex <no map entry 0x%04x>" % t)
+    ck.compare("dex-missing-section", dnames, dreal, drv.ask(dreqs))
+    ck.cover(dist={"missing_section_files": len(dnames), "missing_section_errors": sum(1 for r in dreal if r.startswith("err"))})
     # item-level streams
     k = item_streams(ck, drv)
     ck.cover(dist={"item_stream_cases": k})
